@@ -25,11 +25,18 @@ Definition item_res (i : item) : option (res bytes) :=
 Definition item_res_msg (i : item) : bytes :=
   match i with IL [IN _; IB m] => m | _ => [] end.
 
-(** model result vs observed item: same constructor, same payload / same error text *)
+(** Error texts are compared by class only: rewording a message is not a behavioural change, but
+    the two texts the VM itself compares ("out of gas", "execution reverted") are. *)
+Definition err_class (m : bytes) : N :=
+  if bytes_eqb m (string_to_bytes "out of gas") then 1
+  else if bytes_eqb m (string_to_bytes "execution reverted") then 2 else 0.
+Definition err_matches (e : string) (m : bytes) : bool := err_class (string_to_bytes e) =? err_class m.
+
+(** model result vs observed item: same constructor, same payload / same error class *)
 Definition res_matches (r : res bytes) (i : item) : bool :=
   match r, i with
   | Ok a, IL [IN 0; IB b] => bytes_eqb a b
-  | Err e, IL [IN 1; IB m] => bytes_eqb (string_to_bytes e) m
+  | Err e, IL [IN 1; IB m] => err_matches e m
   | Panic _, IL [IN 2; IB _] => true
   | _, _ => false
   end.
